@@ -75,6 +75,9 @@ theorem lv_alignTo {s s' : State} {n : Nat} (h : alignTo cfg s n = .ok s') : s'.
 theorem lv_alignGuardDrop {s s' : State} {n : Nat} (h : alignGuardDrop cfg s n = .ok s') : s'.live = s.live :=
   (alignGuardDrop_stable h).live
 
+theorem lv_alignChunkAt {s s' : State} {n : Nat} {st : Cur} (h : alignChunkAt cfg s n st = .ok s') : s'.live = s.live :=
+  (alignChunkAt_stable h).live
+
 /-! ### the closing tactic -/
 
 syntax "lv_norm" : tactic
@@ -98,6 +101,7 @@ macro_rules
       | refine Eq.trans (lv_resetTo (by assumption)) ?_
       | refine Eq.trans (lv_alignTo (by assumption)) ?_
       | refine Eq.trans (lv_alignGuardDrop (by assumption)) ?_
+      | refine Eq.trans (lv_alignChunkAt (by assumption)) ?_
       | refine Eq.trans (lv_newChunk (by assumption)) ?_
       | refine Eq.trans (lv_newChunkForCapacity (by assumption)) ?_
       | refine Eq.trans (lv_inAnotherChunk (by assumption)) ?_
